@@ -240,7 +240,25 @@ fn main() {
     }
     // 4. Wad
     t.seq("wad");
-    let wl: Vec<i128> = lat.iter().cloned().filter(|v| v.unsigned_abs() < 8 || v.unsigned_abs() > 1 << 60).collect();
+    let mut wl: Vec<i128> = lat.iter().cloned().filter(|v| v.unsigned_abs() < 8 || v.unsigned_abs() > 1 << 60).collect();
+    {
+        // whole and near-whole Wad values (k * 10^18 and neighbours): the operands for which a
+        // "whole number" shortcut and the general rescaling path must agree, including MIN / -1.0
+        let scale = 1_000_000_000_000_000_000i128;
+        let kmax = i128::MAX / scale;
+        for k in [1i128, 2, 3, 10, 1_000_000, kmax - 1, kmax] {
+            for sgn in [1i128, -1] {
+                for off in [-1i128, 0, 1] {
+                    let v = sgn * k * scale + off;
+                    if !wl.contains(&v) {
+                        wl.push(v);
+                    }
+                }
+            }
+        }
+        wl.push(scale / 2);
+        wl.push(-scale / 2);
+    }
     for &a in &wl {
         for &b in &wl {
             wad_ops(&mut t, a, b);
